@@ -15,28 +15,10 @@ open StreamzVerif.AsyncBuffer
 
 variable {α β : Type}
 
-/-- what the settled model knows of the worker -/
-inductive WP where
-  | idle | awaiting (j : Nat) | emitting (j : Nat)
-deriving DecidableEq
-
-def W.proj : W → WP
-  | .absent => .idle
-  | .starting => .idle
-  | .getting _ => .idle
-  | .awaiting j => .awaiting j
-  | .emitting j _ => .emitting j
-
 def wproj : Worker α → WP
   | .idle => .idle
   | .awaiting it => .awaiting it.id
   | .emitting it => .emitting it.id
-
-@[simp] theorem proj_absent : W.absent.proj = .idle := rfl
-@[simp] theorem proj_starting : W.starting.proj = .idle := rfl
-@[simp] theorem proj_getting (b : Bool) : (W.getting b).proj = .idle := rfl
-@[simp] theorem proj_awaiting (j : Nat) : (W.awaiting j).proj = .awaiting j := rfl
-@[simp] theorem proj_emitting (j : Nat) (b : Bool) : (W.emitting j b).proj = .emitting j := rfl
 
 /-- States of the settled model reachable by its primitive moves, in any interleaving. -/
 inductive Reach (f : α → β) (c : MCfg) : MSt α β → Prop where
@@ -55,199 +37,28 @@ structure Rel (s : FSt α) (m : MSt α β) : Prop where
   waiting : m.waiting.map (fun it => it.id) = waitingIds s
   queue : m.queue.map (fun j => j.it.id) = s.queue
   running : ∀ j ∈ m.queue, j.st = .running
-  worker : wproj m.worker = s.worker.proj
+  worker : wproj m.worker = aproj s
   ins : m.ins = s.ins
   outs : m.outs.map Prod.fst = s.outs
   accepted : m.accepted = s.started
 
-/-! ### the effect of a fine step on the abstract view -/
-
-/-- effect of `getNext` (on queue `q`, emissions `o`) -/
-def GN (q o : List Nat) (s' : FSt α) : Prop :=
-  (q = [] ∧ s'.queue = [] ∧ s'.worker.proj = .idle ∧ s'.outs = o) ∨
-  (∃ j rest, q = j :: rest ∧ s'.queue = rest ∧
-    ((s'.worker.proj = .awaiting j ∧ s'.outs = o) ∨ (s'.worker.proj = .emitting j ∧ s'.outs = o ++ [j])))
-
-inductive Eff (p : Nat) (s s' : FSt α) : Prop where
-  | arrive (x : α) : s'.ins = s.ins ++ [(s.ins.length, x)] → s'.queue = s.queue → s'.worker.proj = s.worker.proj →
-      s'.outs = s.outs → s'.started = s.started → Eff p s s'
-  | silent : s'.ins = s.ins → s'.queue = s.queue → s'.worker.proj = s.worker.proj →
-      s'.outs = s.outs → s'.started = s.started → Eff p s s'
-  | admission (j : Nat) : s'.ins = s.ins → s'.queue = s.queue ++ [j] → s'.worker.proj = s.worker.proj →
-      s'.outs = s.outs → s'.started = s.started ++ [j] → full p s.queue = false → Eff p s s'
-  | get : s'.ins = s.ins → s'.started = s.started → s.worker.proj = .idle → GN s.queue s.outs s' → Eff p s s'
-  | emit (j : Nat) : s'.ins = s.ins → s'.started = s.started → s.worker.proj = .awaiting j → s'.queue = s.queue →
-      s'.worker.proj = .emitting j → s'.outs = s.outs ++ [j] → Eff p s s'
-  | release (j : Nat) : s'.ins = s.ins → s'.started = s.started → s.worker.proj = .emitting j →
-      GN s.queue s.outs s' → Eff p s s'
-
-theorem getNext_ins (s : FSt α) : (getNext s).ins = s.ins := by
-  unfold getNext; split
-  · rfl
-  · split <;> simp [emitNow]
-
-theorem getNext_started (s : FSt α) : (getNext s).started = s.started := by
-  unfold getNext; split
-  · rfl
-  · split <;> simp [emitNow]
-
-theorem getNext_GN (s : FSt α) : GN s.queue s.outs (getNext s) := by
-  unfold getNext
-  cases hq : s.queue with
-  | nil => left; simp
-  | cons j rest =>
-    right
-    refine ⟨j, rest, rfl, ?_⟩
-    simp only
-    split <;> simp [emitNow]
-
-theorem insertNow_proj (s : FSt α) (j : Nat) : (insertNow s j).worker.proj = s.worker.proj := by
-  unfold insertNow; split <;> simp_all
-
-theorem releaseLock_view (t : FSt α) : (releaseLock t).started = t.started ∧ (releaseLock t).ins = t.ins ∧
-    (releaseLock t).queue = t.queue ∧ (releaseLock t).worker = t.worker ∧ (releaseLock t).outs = t.outs := by
-  unfold releaseLock; split <;> simp
-
-theorem slotWait_eff (p : Nat) (s : FSt α) (j : Nat) :
-    (slotWait (locked p) s j).ins = s.ins ∧ (slotWait (locked p) s j).worker.proj = s.worker.proj ∧
-    (slotWait (locked p) s j).outs = s.outs ∧
-    (((slotWait (locked p) s j).queue = s.queue ∧ (slotWait (locked p) s j).started = s.started) ∨
-     ((slotWait (locked p) s j).queue = s.queue ++ [j] ∧ (slotWait (locked p) s j).started = s.started ++ [j] ∧
-        full p s.queue = false)) := by
-  unfold slotWait
-  by_cases hf : full p s.queue = true
-  · simp [locked, hf]
-  · have hv := releaseLock_view (insertNow s j)
-    simp only [locked, hf, Bool.false_eq_true, if_false, finishInsert]
-    refine ⟨by simp [hv.2.1], by rw [hv.2.2.2.1]; exact insertNow_proj s j, by simp [hv.2.2.2.2], Or.inr ⟨?_, ?_, by simpa using hf⟩⟩
-    · simp [hv.2.2.1]
-    · simp [hv.1]
-
-theorem finishJob_view (s : FSt α) (j : Nat) : (finishJob s j).ins = s.ins ∧ (finishJob s j).queue = s.queue ∧
-    (finishJob s j).worker = s.worker ∧ (finishJob s j).outs = s.outs ∧ (finishJob s j).started = s.started := by
-  unfold finishJob; split <;> simp
-
-theorem step_eff (p : Nat) (s s' : FSt α) (a : FAct α) (hs : step (locked p) s a = some s') : Eff p s s' := by
-  cases a with
-  | arrive x =>
-    simp only [step, Option.some.injEq] at hs
-    subst hs
-    apply Eff.arrive x <;> cases hw : s.worker <;> simp [hw]
-  | jobDone j =>
-    simp only [step] at hs
-    split at hs <;> simp at hs <;> subst hs <;> exact Eff.silent rfl rfl rfl rfl rfl
-  | downDone =>
-    simp only [step] at hs
-    split at hs <;> simp at hs
-    rename_i j hw
-    subst hs
-    exact Eff.silent rfl rfl (by simp [hw]) rfl rfl
-  | tick =>
-    simp only [step] at hs
-    cases hr : s.ready with
-    | nil => simp [hr] at hs
-    | cons hd rest =>
-      rw [hr] at hs
-      simp only at hs
-      generalize hs0 : ({ s with ready := rest } : FSt α) = s0 at hs
-      have e1 : s0.started = s.started := by subst hs0; rfl
-      have e2 : s0.queue = s.queue := by subst hs0; rfl
-      have e3 : s0.ins = s.ins := by subst hs0; rfl
-      have e4 : s0.worker = s.worker := by subst hs0; rfl
-      have e5 : s0.outs = s.outs := by subst hs0; rfl
-      have lift : Eff p s0 s' → Eff p s s' := by
-        intro h
-        cases h with
-        | arrive x h1 h2 h3 h4 h5 => exact Eff.arrive x (by rw [h1, e3]) (by rw [h2, e2]) (by rw [h3, e4]) (by rw [h4, e5]) (by rw [h5, e1])
-        | silent h1 h2 h3 h4 h5 => exact Eff.silent (by rw [h1, e3]) (by rw [h2, e2]) (by rw [h3, e4]) (by rw [h4, e5]) (by rw [h5, e1])
-        | admission j h1 h2 h3 h4 h5 h6 =>
-          exact Eff.admission j (by rw [h1, e3]) (by rw [h2, e2]) (by rw [h3, e4]) (by rw [h4, e5]) (by rw [h5, e1]) (by rw [← e2]; exact h6)
-        | get h1 h2 h3 h4 => exact Eff.get (by rw [h1, e3]) (by rw [h2, e1]) (by rw [← e4]; exact h3) (by rw [← e2, ← e5]; exact h4)
-        | emit j h1 h2 h3 h4 h5 h6 =>
-          exact Eff.emit j (by rw [h1, e3]) (by rw [h2, e1]) (by rw [← e4]; exact h3) (by rw [h4, e2]) h5 (by rw [h6, e5])
-        | release j h1 h2 h3 h4 => exact Eff.release j (by rw [h1, e3]) (by rw [h2, e1]) (by rw [← e4]; exact h3) (by rw [← e2, ← e5]; exact h4)
-      apply lift
-      have slot : ∀ (t : FSt α) (j : Nat), t.ins = s0.ins → t.queue = s0.queue → t.worker = s0.worker → t.outs = s0.outs →
-          t.started = s0.started → Eff p s0 (slotWait (locked p) t j) := by
-        intro t j t1 t2 t3 t4 t5
-        obtain ⟨h1, h2, h3, h4⟩ := slotWait_eff p t j
-        rcases h4 with ⟨h4, h5⟩ | ⟨h4, h5, h6⟩
-        · exact Eff.silent (by rw [h1, t1]) (by rw [h4, t2]) (by rw [h2, t3]) (by rw [h3, t4]) (by rw [h5, t5])
-        · exact Eff.admission j (by rw [h1, t1]) (by rw [h4, t2]) (by rw [h2, t3]) (by rw [h3, t4]) (by rw [h5, t5]) (by rw [← t2]; exact h6)
-      cases hd with
-      | insFirst j =>
-        simp only [runH, locked, Option.some.injEq] at hs
-        subst hs
-        unfold tryLock
-        split
-        · exact slot s0 j rfl rfl rfl rfl rfl
-        · exact Eff.silent rfl rfl rfl rfl rfl
-      | insWake j =>
-        simp only [runH, Option.some.injEq] at hs
-        subst hs
-        exact slot _ j rfl rfl rfl rfl rfl
-      | insPoll j =>
-        simp only [runH, Option.some.injEq] at hs
-        subst hs
-        exact slot s0 j rfl rfl rfl rfl rfl
-      | ack j =>
-        simp only [runH, Option.some.injEq] at hs
-        subst hs; exact Eff.silent rfl rfl rfl rfl rfl
-      | worker =>
-        simp only [runH] at hs
-        cases hw : s0.worker with
-        | absent => simp [hw] at hs
-        | starting =>
-          simp [hw] at hs; subst hs
-          exact Eff.get (by simp [getNext_ins]) (by simp [getNext_started]) (by simp [hw]) (getNext_GN s0)
-        | getting b =>
-          simp [hw] at hs; subst hs
-          exact Eff.get (by simp [getNext_ins]) (by simp [getNext_started]) (by simp [hw]) (getNext_GN s0)
-        | awaiting j =>
-          simp [hw] at hs; subst hs
-          exact Eff.emit j rfl rfl (by simp [hw]) rfl (by simp [emitNow]) (by simp [emitNow])
-        | emitting j b =>
-          simp [hw] at hs; subst hs
-          exact Eff.release j (by simp [getNext_ins]) (by simp [getNext_started]) (by simp [hw])
-            (getNext_GN { s0 with fin := s0.fin ++ [j] })
-      | jobFirst j =>
-        simp only [runH] at hs
-        split at hs
-        · simp at hs; subst hs; exact Eff.silent rfl rfl rfl rfl rfl
-        · simp at hs; subst hs
-          obtain ⟨h1, h2, h3, h4, h5⟩ := finishJob_view s0 j
-          exact Eff.silent h1 h2 (by rw [h3]) h4 h5
-        · simp at hs
-      | jobWake j =>
-        simp only [runH, Option.some.injEq] at hs
-        subst hs
-        obtain ⟨h1, h2, h3, h4, h5⟩ := finishJob_view s0 j
-        exact Eff.silent h1 h2 (by rw [h3]) h4 h5
-      | gatherCb =>
-        simp only [runH, Option.some.injEq] at hs
-        subst hs; exact Eff.silent rfl rfl rfl rfl rfl
-
 /-! ### the waiting list along a step -/
 
-theorem inv_order' (c : Cfg) (s : FSt α) (h : Inv c s) : s.started ++ waitingIds s = List.range s.ins.length := by
-  have := h.order
-  simpa [waitingIds, List.append_assoc] using this
-
-theorem waiting_same (c : Cfg) (s s' : FSt α) (h : Inv c s) (h' : Inv c s') (h1 : s'.started = s.started)
+theorem waiting_same (c : Cfg) (s s' : FSt α) (h : LInv c s) (h' : LInv c s') (h1 : s'.started = s.started)
     (h2 : s'.ins = s.ins) : waitingIds s' = waitingIds s := by
   have ho := inv_order' c s h
   have ho' := inv_order' c s' h'
   rw [h1, h2, ← ho] at ho'
   exact List.append_cancel_left ho'
 
-theorem waiting_admission (c : Cfg) (s s' : FSt α) (j : Nat) (h : Inv c s) (h' : Inv c s')
+theorem waiting_admission (c : Cfg) (s s' : FSt α) (j : Nat) (h : LInv c s) (h' : LInv c s')
     (h1 : s'.started = s.started ++ [j]) (h2 : s'.ins = s.ins) : waitingIds s = j :: waitingIds s' := by
   have ho := inv_order' c s h
   have ho' := inv_order' c s' h'
   rw [h1, h2, ← ho, List.append_assoc] at ho'
   exact (List.append_cancel_left ho').symm
 
-theorem waiting_arrive (c : Cfg) (s s' : FSt α) (x : α) (h : Inv c s) (h' : Inv c s') (h1 : s'.started = s.started)
+theorem waiting_arrive (c : Cfg) (s s' : FSt α) (x : α) (h : LInv c s) (h' : LInv c s') (h1 : s'.started = s.started)
     (h2 : s'.ins = s.ins ++ [(s.ins.length, x)]) : waitingIds s' = waitingIds s ++ [s.ins.length] := by
   have ho := inv_order' c s h
   have ho' := inv_order' c s' h'
@@ -289,9 +100,9 @@ theorem sim_get (f : α → β) (p : Nat) (s' : FSt α) (m : MSt α β) (q o : L
     (ho : m.outs.map Prod.fst = o) (hwait : m.waiting.map (fun it => it.id) = waitingIds s')
     (hins : m.ins = s'.ins) (hacc : m.accepted = s'.started) (hg : GN q o s') :
     ∃ m', Reach f ⟨p, true⟩ m' ∧ Rel s' m' := by
-  rcases hg with ⟨hq0, h1, h2, h3⟩ | ⟨j, rest, hq0, h1, h2⟩
+  rcases hg with ⟨h1, h2, h3⟩ | ⟨j, rest, hq0, h1, h2⟩
   · refine ⟨m, hm, ⟨hwait, ?_, hrun, by rw [hw, h2]; rfl, hins, by rw [ho, h3], hacc⟩⟩
-    rw [hq, hq0, h1]
+    rw [hq, h1]
   · subst hq0
     cases hmq : m.queue with
     | nil => rw [hmq] at hq; simp at hq
@@ -317,9 +128,11 @@ theorem sim_get (f : α → β) (p : Nat) (s' : FSt α) (m : MSt α β) (q o : L
         · simp [ho, h3, hq.1]
 
 theorem sim_step (f : α → β) (p : Nat) (s s' : FSt α) (m : MSt α β) (a : FAct α)
-    (hi : Inv (locked p) s) (hi' : Inv (locked p) s') (hR : Rel s m) (hm : Reach f ⟨p, true⟩ m)
+    (hi0 : Inv (locked p) s) (hR : Rel s m) (hm : Reach f ⟨p, true⟩ m)
     (hs : step (locked p) s a = some s') : ∃ m', Reach f ⟨p, true⟩ m' ∧ Rel s' m' := by
-  cases step_eff p s s' a hs with
+  obtain ⟨hi', _, heff⟩ := step_facts (locked p) rfl rfl s s' a hi0.l hi0.w hs
+  have hi := hi0.l
+  cases heff with
   | arrive x h1 h2 h3 h4 h5 =>
     have hw := waiting_arrive _ s s' x hi hi' h5 h1
     refine ⟨_, Reach.prim m (.arrive x) hm, ?_⟩
@@ -386,7 +199,7 @@ theorem sim_step (f : α → β) (p : Nat) (s s' : FSt α) (m : MSt α β) (a : 
       (by rw [h1]; exact hR.ins) (by rw [h2]; exact hR.accepted) h4
 
 theorem rel_init : Rel (init α) (minit α β) := by
-  constructor <;> simp [init, minit, waitingIds, wproj]
+  constructor <;> simp [init, minit, waitingIds, wproj, aproj]
 
 theorem sim_run (f : α → β) (p : Nat) (acts : List (FAct α)) (s s' : FSt α) (m : MSt α β)
     (hi : Inv (locked p) s) (hR : Rel s m) (hm : Reach f ⟨p, true⟩ m) (hr : run (locked p) s acts = some s') :
@@ -399,8 +212,8 @@ theorem sim_run (f : α → β) (p : Nat) (acts : List (FAct α)) (s s' : FSt α
     | none => simp [hs] at hr
     | some s1 =>
       rw [hs] at hr
-      have hi1 := inv_step _ rfl s s1 a hi hs
-      obtain ⟨m1, hm1, hR1⟩ := sim_step f p s s1 m a hi hi1 hR hm hs
+      have hi1 := inv_step _ rfl rfl s s1 a hi hs
+      obtain ⟨m1, hm1, hR1⟩ := sim_step f p s s1 m a hi hR hm hs
       exact ih s1 m1 hi1 hR1 hm1 hr
 
 /-- every state reachable by the primitive moves satisfies the settled model's invariant (history, bound, reference
